@@ -36,17 +36,18 @@
    QueryConsistent is claimed for Snapshots = TRUE only; QueryCommitted for both.           *)
 EXTENDS Integers, Sequences, FiniteSets, TLC, Json
 
-CONSTANTS MaxVer, NQ, QKinds, Orders, Crashes, Snapshots, Fine, AtomicResolve, Coarse, Keep,
+CONSTANTS MaxVer, NQ, NCheck, QKinds, Orders, Crashes, Snapshots, Fine, AtomicResolve, Coarse, Keep,
           StoreDirect, MetaDirect, MaxLen
 
 VARIABLES cpc, cid, hdr, coll, disk,
           snap, nsnap, snapst, refs, closed,      \* query snapshot: current id, ids used, content per id, ref counts, closed ids
           qpc, qkind, qord, qh, qview, qreads, qres, qdone,
           gcid,                                   \* ghost: cid when the process last died
+          mpend,                                  \* CheckTx ante writes pending in checkState (mempool connection)
           hist
 
 svars == <<snap, nsnap, snapst, refs, closed>>
-cvars == <<cpc, cid, hdr, coll, disk, svars, gcid>>
+cvars == <<cpc, cid, hdr, coll, disk, svars, gcid, mpend>>
 qvars == <<qpc, qkind, qord, qh, qview, qreads, qres, qdone>>
 vars == <<cvars, qvars>>
 
@@ -59,7 +60,7 @@ Init ==
   /\ coll = NoColl /\ disk = Disk0
   /\ snap = 0 /\ nsnap = 0 /\ snapst = [i \in SnapIds |-> Disk0] /\ refs = [i \in SnapIds |-> 0] /\ closed = {}
   /\ qpc = "idle" /\ qkind = "none" /\ qord = <<>> /\ qh = 0 /\ qview = 0 /\ qreads = <<>> /\ qres = "none" /\ qdone = 0
-  /\ gcid = 0
+  /\ gcid = 0 /\ mpend = 0
   /\ hist = <<>>
 
 \* projected state the driver can read from the real objects (keeps model and code in step)
@@ -67,7 +68,7 @@ Proj(c, d, s, ss) == [cid |-> c, dmeta |-> d.meta, dbase |-> d.base, dmain |-> d
                       snapv |-> IF s = 0 THEN -1 ELSE ss[s].meta]
 Log(r) == hist' = Append(hist, r)
 Room == Len(hist) < MaxLen
-CRec(a) == [act |-> a, p |-> "C", st |-> Proj(cid', disk', snap', snapst')]
+CRec(a) == [act |-> a, p |-> "C", checktx |-> mpend', st |-> Proj(cid', disk', snap', snapst')]
 
 v == cid + 1
 Prune(ver) == IF Keep < 0 \/ ver - 1 - Keep < 1 THEN {} ELSE 1..(ver - 1 - Keep)
@@ -79,7 +80,7 @@ Apply(d, c) == [main |-> IF c.main = 0 THEN d.main ELSE (d.main \cup {c.main}) \
 CExec ==
   /\ Room /\ cpc = "idle" /\ v <= MaxVer
   /\ cpc' = "exec"
-  /\ UNCHANGED <<cid, hdr, coll, disk, svars, gcid, qvars>>
+  /\ UNCHANGED <<cid, hdr, coll, disk, svars, gcid, mpend, qvars>>
   /\ Log(CRec("CExec"))
 
 \* dbadapter Set reaches the collector at once (or the DB itself when mounted without it)
@@ -91,19 +92,19 @@ CMultiWrite ==
   /\ Room /\ ~Coarse /\ cpc = "exec"
   /\ LET e == MultiWriteEff(coll, disk) IN coll' = e[1] /\ disk' = e[2]
   /\ cpc' = "written"
-  /\ UNCHANGED <<cid, hdr, svars, gcid, qvars>>
+  /\ UNCHANGED <<cid, hdr, svars, gcid, mpend, qvars>>
   /\ Log(CRec("CMultiWrite"))
 CCommitStores ==
   /\ Room /\ ~Coarse /\ cpc = "written"
   /\ LET e == CommitStoresEff(coll, disk) IN coll' = e[1] /\ disk' = e[2]
   /\ cpc' = "saved"
-  /\ UNCHANGED <<cid, hdr, svars, gcid, qvars>>
+  /\ UNCHANGED <<cid, hdr, svars, gcid, mpend, qvars>>
   /\ Log(CRec("CCommitStores"))
 CMeta ==
   /\ Room /\ ~Coarse /\ cpc = "saved"
   /\ LET e == MetaEff(coll, disk) IN coll' = e[1] /\ disk' = e[2]
   /\ cpc' = "meta"
-  /\ UNCHANGED <<cid, hdr, svars, gcid, qvars>>
+  /\ UNCHANGED <<cid, hdr, svars, gcid, mpend, qvars>>
   /\ Log(CRec("CMeta"))
 CPrepare ==
   /\ Room /\ Coarse /\ cpc = "exec"
@@ -112,14 +113,14 @@ CPrepare ==
          e3 == MetaEff(e2[1], e2[2])
      IN coll' = e3[1] /\ disk' = e3[2]
   /\ cpc' = "meta"
-  /\ UNCHANGED <<cid, hdr, svars, gcid, qvars>>
+  /\ UNCHANGED <<cid, hdr, svars, gcid, mpend, qvars>>
   /\ Log(CRec("CPrepare"))
 
 CWriteSync ==
   /\ Room /\ cpc = "meta"
   /\ disk' = Apply(disk, coll) /\ coll' = NoColl
   /\ cpc' = "synced"
-  /\ UNCHANGED <<cid, hdr, svars, gcid, qvars>>
+  /\ UNCHANGED <<cid, hdr, svars, gcid, mpend, qvars>>
   /\ Log(CRec("CWriteSync"))
 
 \* refreshQuerySnapshot: a new snapshot of the DB holding the store's own reference; the old one loses it
@@ -136,35 +137,38 @@ CSwap ==
   /\ Room /\ Fine /\ ~AtomicResolve /\ cpc = "synced"
   /\ Swap(disk)
   /\ cpc' = "swapped"
-  /\ UNCHANGED <<cid, hdr, coll, disk, gcid, qvars>>
+  /\ UNCHANGED <<cid, hdr, coll, disk, gcid, mpend, qvars>>
   /\ Log(CRec("CSwap"))
 CPublish ==
   /\ Room /\ Fine /\ ~AtomicResolve /\ cpc = "swapped"
   /\ cid' = v /\ cpc' = "published"
-  /\ UNCHANGED <<hdr, coll, disk, svars, gcid, qvars>>
+  /\ UNCHANGED <<hdr, coll, disk, svars, gcid, mpend, qvars>>
   /\ Log(CRec("CPublish"))
 CSwapPublish ==
   /\ Room /\ ~Fine /\ ~AtomicResolve /\ cpc = "synced"
   /\ Swap(disk)
   /\ cid' = v /\ cpc' = "published"
-  /\ UNCHANGED <<hdr, coll, disk, gcid, qvars>>
+  /\ UNCHANGED <<hdr, coll, disk, gcid, mpend, qvars>>
   /\ Log(CRec("CSwapPublish"))
 CSetHeader ==
   /\ Room /\ ~AtomicResolve /\ cpc = "published"
   /\ hdr' = cid /\ cpc' = "idle"
+  /\ mpend' = NCheck   \* setCheckState makes a fresh checkState; then, still under the consensus mutex, the mempool
+                       \* connection re-checks / checks NCheck pending transactions: their ante writes (sequence bump)
+                       \* stay in checkState, a cache over the LIVE multistore, until the next Commit
   /\ UNCHANGED <<cid, coll, disk, svars, gcid, qvars>>
   /\ Log(CRec("CSetHeader"))
 CPublishAll ==   \* required design: the three publication steps are one step for queries
   /\ Room /\ AtomicResolve /\ cpc = "synced"
   /\ Swap(disk)
-  /\ cid' = v /\ hdr' = v /\ cpc' = "idle"
+  /\ cid' = v /\ hdr' = v /\ cpc' = "idle" /\ mpend' = NCheck
   /\ UNCHANGED <<coll, disk, gcid, qvars>>
   /\ Log(CRec("CPublishAll"))
 
 \* ------------------------------------------------------------------ crash / reopen (C27)
 Crash ==
   /\ Room /\ Crashes /\ cpc # "down"
-  /\ cpc' = "down" /\ coll' = NoColl /\ gcid' = cid
+  /\ cpc' = "down" /\ coll' = NoColl /\ gcid' = cid /\ mpend' = 0
   /\ qpc' = "idle" /\ qreads' = <<>> /\ qres' = "none"
   /\ UNCHANGED <<cid, hdr, disk, svars, qkind, qord, qh, qview, qdone>>
   /\ Log([act |-> "Crash", p |-> "C", at |-> cpc, st |-> Proj(cid, disk, snap, snapst)])
@@ -179,6 +183,7 @@ Reopen ==
           /\ Log([act |-> "Reopen", p |-> "C", ok |-> TRUE, st |-> Proj(disk.meta, disk, snap', snapst')])
      ELSE /\ UNCHANGED <<cid, hdr, cpc, svars>>
           /\ Log([act |-> "Reopen", p |-> "C", ok |-> FALSE, st |-> Proj(cid, disk, snap, snapst)])
+  /\ mpend' = 0
   /\ UNCHANGED <<coll, disk, gcid, qvars>>
 
 \* ------------------------------------------------------------------ query connection
@@ -204,14 +209,14 @@ QResolve(k, o) ==
 QAcquire ==
   /\ Room /\ qpc = "resolved"
   /\ Acquire /\ qpc' = "acquired"
-  /\ UNCHANGED <<cpc, cid, hdr, coll, disk, snap, nsnap, snapst, closed, gcid, qkind, qord, qh, qreads, qres, qdone>>
+  /\ UNCHANGED <<cpc, cid, hdr, coll, disk, snap, nsnap, snapst, closed, gcid, mpend, qkind, qord, qh, qreads, qres, qdone>>
   /\ Log(QRec("QAcquire") @@ [view |-> IF Snapshots THEN snapst[snap].meta ELSE -1])
 QStart(k, o) ==   \* QResolve + QAcquire with no schedulable point in between
   /\ Room /\ (~Fine \/ AtomicResolve) /\ CanStart /\ OrdOK(k, o)
   /\ qkind' = k /\ qord' = o /\ qh' = ResolveH(k)
   /\ Acquire /\ qpc' = "acquired"
   /\ qreads' = <<>> /\ qres' = "none"
-  /\ UNCHANGED <<cpc, cid, hdr, coll, disk, snap, nsnap, snapst, closed, gcid, qdone>>
+  /\ UNCHANGED <<cpc, cid, hdr, coll, disk, snap, nsnap, snapst, closed, gcid, mpend, qdone>>
   /\ Log(QRec("QStart") @@ [kind |-> k, ord |-> o, h |-> ResolveH(k),
                             view |-> IF Snapshots THEN snapst[snap].meta ELSE -1])
 
@@ -233,7 +238,7 @@ QLoad ==
                             THEN <<[store |-> "main", tag |-> qh, dmeta |-> disk.meta]>> ELSE <<>>
           ELSE /\ Release
                /\ qpc' = "failed" /\ qres' = "err" /\ UNCHANGED qreads
-  /\ UNCHANGED <<cpc, cid, hdr, coll, disk, snap, nsnap, snapst, gcid, qkind, qord, qh, qview, qdone>>
+  /\ UNCHANGED <<cpc, cid, hdr, coll, disk, snap, nsnap, snapst, gcid, mpend, qkind, qord, qh, qview, qdone>>
   /\ Log(QRec("QLoad") @@ [res |-> qres', pc |-> qpc', reads |-> qreads'])
 
 QRead ==
@@ -249,7 +254,7 @@ QEnd ==
         /\ Release
      \/ /\ qpc \in {"failed", "fallback"} /\ UNCHANGED <<refs, closed>>
   /\ qpc' = "idle" /\ qdone' = qdone + 1
-  /\ UNCHANGED <<cpc, cid, hdr, coll, disk, snap, nsnap, snapst, gcid, qkind, qord, qh, qview, qreads, qres>>
+  /\ UNCHANGED <<cpc, cid, hdr, coll, disk, snap, nsnap, snapst, gcid, mpend, qkind, qord, qh, qview, qreads, qres>>
   /\ Log(QRec("QEnd") @@ [res |-> qres, reads |-> qreads, kind |-> qkind])
 
 Next == \/ CExec \/ CMultiWrite \/ CCommitStores \/ CMeta \/ CPrepare \/ CWriteSync
@@ -272,6 +277,9 @@ RecoveredVersion == cpc = "down" => disk.meta \in {gcid, gcid + 1}
 QueryConsistent == Snapshots => \A i, j \in DOMAIN qreads : qreads[i].tag = qreads[j].tag
 \* C28: and that height was durable when it was read (never uncommitted writes)
 QueryCommitted == \A i \in DOMAIN qreads : qreads[i].tag <= qreads[i].dmeta
+\* pending CheckTx writes live in checkState only: no view a query reads from contains them (the sequence a
+\* simulation's ante handler sees is the committed one) -- structurally so in this model: no query action reads mpend;
+\* on the real code the driver reads the sequence through every simulation and judges it like any other value.
 \* a query that starts after a commit was published never fails to load its own height
 QueryLoads == (AtomicResolve /\ Keep < 0) => qres # "err"
 \* a snapshot is never closed while a query holds it; counts never negative
